@@ -107,6 +107,21 @@ def run(prop, tier):
                 cid, _, flags = R[k % len(R)]
                 big.append((cid, bytes((k + i) & 0xFF for i in range(64 if fd else 8)), flags))
             cases.append(((cf, udp, fd), n, big))
+        # packets filled up to and beyond the talker's 1500-byte buffer: counts around the capacity for maximal, empty and mixed frames
+        hdrlen = (4 if udp else 0) + (24 if cf == 'tscf' else 12)
+        maxd = 64 if fd else 8
+        cap_max, cap_zero = (1500 - hdrlen) // (16 + maxd), min(255, (1500 - hdrlen) // 16)
+        for cnt in sorted({cap_max - 1, cap_max, cap_max + 1, cap_max + 8, cap_zero, min(255, cap_zero + 1), 255}):
+            for shape in ('max', 'zero', 'mix'):
+                nfr = 2 * cnt
+                fill = []
+                for k in range(nfr):
+                    cid, _, flags = R[k % len(R)]
+                    ln = maxd if shape == 'max' else 0 if shape == 'zero' else (k * 7) % (maxd + 1)
+                    if fd and ln not in FD_LENS:
+                        ln = max(x for x in FD_LENS if x <= ln)
+                    fill.append((cid, bytes((k + i) & 0xFF for i in range(ln)), flags))
+                cases.append(((cf, udp, fd), cnt, fill))
         # a long run through one talker and one listener process: 300 single-frame packets (the 8-bit sequence numbers wrap)
         cases.append(((cf, udp, fd), 1, [(R[k % len(R)][0], bytes((k + i) & 0xFF for i in range(1 + k % 8)), R[k % len(R)][2]) for k in range(300)]))
         # two packets in sequence
@@ -128,6 +143,7 @@ def run(prop, tier):
         tres = e4.run_batch(talker, tscripts)
         lscripts = []
         pk = {}
+        split_ok = {}
 
         for i, (mode, count, frames) in enumerate(cases):
             cf, udp, fd = mode
@@ -138,7 +154,14 @@ def run(prop, tier):
                 viol('talker: %s' % cls, 'T|%d' % i, '%s count=%d frames=%s' % (mname, count, [describe(f, fd) for f in frames]))
                 continue
             pkts = [bytes.fromhex(x[4:]) for x in eff.split(';') if x.startswith('PKT ')]
-            if len(pkts) != len(frames) // count:
+            if 'STACKGROWTH' in eff:
+                viol('talker: the stack grows with every packet sent', 'T|%d' % i, '%s count=%d' % (mname, count))
+            if any(len(p) > 1500 for p in pkts):
+                viol('talker: packet larger than its 1500-byte buffer', 'T|%d' % i, '%s count=%d: packet sizes %s' % (mname, count, sorted({len(p) for p in pkts})))
+                continue
+            # a count that may not fit one packet: the talker may split as it likes, all that matters is that the frames arrive
+            split_ok[i] = (4 if udp else 0) + (24 if cf == 'tscf' else 12) + count * (16 + (64 if fd else 8)) > 1500
+            if len(pkts) != len(frames) // count and not split_ok[i]:
                 viol('talker: wrong number of packets', 'T|%d' % i, '%s count=%d: %d frames gave %d packets' % (mname, count, len(frames), len(pkts)))
                 continue
             # the control header announces exactly the ACF bytes that follow
@@ -165,6 +188,8 @@ def run(prop, tier):
                 viol('listener: %s' % cls, 'L|%d' % i, '%s count=%d frames=%s' % (mname, count, [describe(f, fd) for f in frames]))
                 continue
             outf = [parse_frame(fd, bytes.fromhex(x[4:])) for x in eff.split(';') if x.startswith('CAN ')]
+            if split_ok.get(i) and len(frames) - count < len(outf) <= len(frames):
+                frames = frames[:len(outf)]      # the rest is still waiting in the talker's unfinished packet when the script ends
             if len(outf) != len(frames):
                 viol('tunnel: number of frames', 'L|%d' % i, '%s count=%d: %d in, %d out' % (mname, count, len(frames), len(outf)))
                 continue
@@ -204,7 +229,7 @@ def run(prop, tier):
     json.dump([[list(m), c, [[f[0], f[1].hex(), f[2]] for f in fr]] for m, c, fr in cases], open(json_cases, 'w'))
     core.finish('C19', tier, t0, res,
                 rule='tunnel runs = {TSCF,NTSCF} x {UDP,raw} x {classic,FD} x (every single frame of the alphabet: ids {0,1,0x7FF,0x800,0x1FFFFFFF} x EFF x RTR | BRS x ESI x lengths x 2 data patterns) + all ordered 2- and 3-tuples over the reduced alphabet {EFF x RTR | EFF x BRS x ESI} x {len 1, 8} with 2/3 frames per packet + two packets in sequence; real talker main() -> captured packets -> real listener main(); frames out compared with frames in; control header data length checked on every packet',
-                bounds={'tunnel_runs': ntun, 'frames_per_packet': [1, 2, 3, 'classic 42/43/60', 'FD 11/12/16 x 64 bytes'], 'longest_run': '300 packets through one talker/listener process', 'modes': 8},
+                bounds={'tunnel_runs': ntun, 'frames_per_packet': [1, 2, 3, 'classic 42/43/60', 'FD 11/12/16 x 64 bytes', 'counts at capacity-1, capacity, capacity+1, capacity+8 (maximal frames), the same for empty frames, and 255, each with maximal / empty / mixed frame lengths'], 'longest_run': '300 packets through one talker/listener process', 'modes': 8},
                 assumptions=['only frames a CAN_RAW socket can deliver (classic len <= 8; FD frames carry CANFD_FDF); data beyond len not compared',
                              'FD mode of the listener is entered by setting its mode variable (its --fd option dereferences a null argument at start-up, outside this property)',
                              'both programs run under ASan+UBSan with pattern-initialised locals'],
